@@ -1858,8 +1858,26 @@ def r_pureview(E):
         isinstance(c, ast.Call) and any(norm(v) == "self.value" for v in list(c.args) + [k.value for k in c.keywords])
         for c in ast.walk(cp))
     res.samples.append({"in_place_methods": sorted(inplace_methods), "copy_shares_value": shallow_copy})
+    # the view functions and the hooks they call on self (a template method's hooks — value_to_json — are part of the
+    # view, in every class of the hierarchy that overrides them)
+    hooks = {}
+    for cn, ci in pm.classes.items():
+        for m in [x for x in ci.node.body if isinstance(x, ast.FunctionDef) and x.name in VIEW_FUNCS]:
+            for sub in [cn] + pm.subclasses(cn):
+                finder = pm.helper_finder(sub)
+                todo, seen_h = [m], {id(m)}
+                while todo:
+                    g = todo.pop()
+                    for c in ast.walk(g):
+                        if isinstance(c, ast.Call) and isinstance(c.func, ast.Attribute) and norm(c.func.value) == "self":
+                            h = finder(c.func.attr)
+                            if h is not None and id(h) not in seen_h and h.name not in VIEW_FUNCS and h.name not in inplace_methods \
+                                    and not h.name.startswith(("update_", "compute_", "set_", "__")):
+                                seen_h.add(id(h))
+                                hooks[id(h)] = h
+                                todo.append(h)
     for mod, (rel, tree, src) in sorted(pm.modules.items()):
-        for fn in [n for n in ast.walk(tree) if isinstance(n, ast.FunctionDef) and n.name in VIEW_FUNCS]:
+        for fn in [n for n in ast.walk(tree) if isinstance(n, ast.FunctionDef) and (n.name in VIEW_FUNCS or id(n) in hooks)]:
             q, _ = _enclosing(fn.body[0]) if fn.body else (fn.name, None)
             res.instances += 1
             params = {a.arg for a in fn.args.args}
